@@ -114,6 +114,14 @@ func Val(b *big.Int) trace.M {
 	if d := new(big.Int).Sub(Half256, b); d.Sign() >= 0 && d.IsInt64() && d.Int64() < trace.Limit {
 		return trace.M{"t": "HALF", "v": d.Int64()}
 	}
+	for _, base := range []struct {
+		name string
+		v    *big.Int
+	}{{"P128", new(big.Int).Lsh(big.NewInt(1), 128)}, {"P64", new(big.Int).Lsh(big.NewInt(1), 64)}} {
+		if d := new(big.Int).Sub(base.v, b); d.Sign() >= 0 && d.IsInt64() && d.Int64() < trace.Limit {
+			return trace.M{"t": base.name, "v": d.Int64()}
+		}
+	}
 	panic(trace.ErrTooBig{V: b.String()})
 }
 
@@ -368,6 +376,18 @@ func (w *Erc20World) amount(t, owner, spender, payer string) *big.Int {
 		al = w.anyAllowance(owner, spender)
 	}
 	one := big.NewInt(1)
+	if spender != "" && al.IsInt64() && w.R.Intn(3) == 0 {
+		// spend the remainder above an encoding boundary: the stored allowance becomes exactly the boundary
+		var cands []int64
+		for _, bd := range smallBoundaries {
+			if rest := al.Int64() - bd; rest > 0 && big.NewInt(rest).Cmp(bal) <= 0 {
+				cands = append(cands, rest)
+			}
+		}
+		if len(cands) > 0 {
+			return big.NewInt(cands[w.R.Intn(len(cands))])
+		}
+	}
 	if spender != "" && al.Sign() > 0 && al.IsInt64() && w.R.Intn(3) == 0 {
 		// part of a finite allowance: approve-spend-respend sequences
 		return big.NewInt(1 + w.R.Int63n(al.Int64()))
@@ -407,17 +427,33 @@ func (w *Erc20World) amount(t, owner, spender, payer string) *big.Int {
 
 // approveAmount: allowances worth spending later.
 func (w *Erc20World) approveAmount() *big.Int {
-	switch w.R.Intn(8) {
+	switch w.R.Intn(10) {
 	case 0:
 		return new(big.Int)
 	case 1:
 		return new(big.Int).Set(MaxU256)
 	case 2:
 		return new(big.Int).Set(Half256)
+	case 3, 4:
+		// encoding boundaries of the stored value
+		return new(big.Int).Set(boundaryAmounts[w.R.Intn(len(boundaryAmounts))])
+	case 5:
+		// a small boundary plus a remainder, to be spent down to the boundary
+		return big.NewInt(smallBoundaries[w.R.Intn(len(smallBoundaries))] + int64(1+w.R.Intn(40)))
 	default:
 		return big.NewInt(int64(1 + w.R.Intn(60)))
 	}
 }
+
+var smallBoundaries = []int64{1, 127, 128, 255, 256, 257}
+
+// boundaryAmounts: byte / word boundaries of the big-endian encoding of an allowance.
+var boundaryAmounts = func() []*big.Int {
+	p := func(n uint) *big.Int { return new(big.Int).Lsh(big.NewInt(1), n) }
+	m1 := func(x *big.Int) *big.Int { return new(big.Int).Sub(x, big.NewInt(1)) }
+	return []*big.Int{big.NewInt(1), big.NewInt(127), big.NewInt(128), big.NewInt(255), big.NewInt(256), big.NewInt(257), big.NewInt(65535), big.NewInt(65536),
+		m1(p(64)), p(64), p(128), p(255), m1(MaxU256), MaxU256}
+}()
 
 // GenStep picks and issues one step.
 func (w *Erc20World) GenStep(out *trace.W, stats map[string]int) {
